@@ -259,6 +259,39 @@ func runRec(c recCase) pbt.Result {
 			return merge(res, pbt.Failf("GetResults result %d differs\n got: %s\nwant: %s\ncase: %+v", i, render(got), renderWant(want), c))
 		}
 	}
+	if c.HasExt && len(c.Contextual) > 0 && !c.JSON {
+		// the provider publishes a newer advertisement whose contextual sets changed (override flipped, providers
+		// in reverse order); like the first record it carries no advertisement CID, only a later time
+		c3 := c
+		c3.Contextual = nil
+		ep := &model.ExtendedProviders{}
+		ep.Providers, ep.Metadatas = c.Chain.lists(c.LookupMD)
+		for _, s := range c.Contextual {
+			s3 := xset{ContextID: s.ContextID, Override: !s.Override, MDLen: s.MDLen}
+			for i := len(s.Providers) - 1; i >= 0; i-- {
+				s3.Providers = append(s3.Providers, s.Providers[i])
+			}
+			c3.Contextual = append(c3.Contextual, s3)
+			ps, mds := s3.lists(c.LookupMD)
+			ep.Contextual = append(ep.Contextual, model.ContextualExtendedProviders{Override: s3.Override, ContextID: string(s3.ContextID), Providers: ps, Metadatas: mds})
+		}
+		src.infos = []*model.ProviderInfo{{AddrInfo: info.AddrInfo, LastAdvertisementTime: "2030-03-03T03:03:03Z", ExtendedProviders: ep}}
+		if err := pc.Refresh(context.Background()); err != nil {
+			return merge(res, pbt.Failf("Refresh: %v", err))
+		}
+		got3, err := pc.GetResults(context.Background(), addrInfo(0).ID, c.LookupCtx, c.LookupMD)
+		want3 := spec(c3)
+		if err != nil || len(got3) != len(want3) {
+			return merge(res, pbt.Failf("after a refresh that delivered a newer record with changed contextual sets GetResults returned %d results (err %v), specification %d\n got: %s\nwant: %s\ncase: %+v", len(got3), err, len(want3), render(got3), renderWant(want3), c))
+		}
+		for i := range got3 {
+			g := got3[i]
+			if g.Provider == nil || !bytes.Equal(g.ContextID, want3[i].Ctx) || !bytes.Equal(g.Metadata, want3[i].MD) || g.Provider.ID != want3[i].ID || fmt.Sprint(g.Provider.Addrs) != want3[i].Addrs {
+				return merge(res, pbt.Failf("after a refresh that delivered a newer record with changed contextual sets (override flipped, providers reversed) GetResults result %d differs\n got: %s\nwant: %s\ncase: %+v", i, render(got3), renderWant(want3), c))
+			}
+		}
+		res.Classes = append(res.Classes, "refresh-changed-contextual")
+	}
 	if c.HasExt {
 		// the provider publishes a newer advertisement without any extended providers: after the refresh the
 		// expansion follows the record now current
@@ -339,7 +372,7 @@ func merge(base, f pbt.Result) pbt.Result {
 
 func TestC17_Expand(t *testing.T) {
 	pbt.Run(t, pbt.Config{Prop: "C17", Unit: "TestC17_Expand",
-		Rule:        "provider records with 0..4 chain-level and 0..3 contextual sets (0..3 providers each, override on/off), per-entry metadata nil / empty / equal to the looked-up metadata / own, main provider present or absent in either list, metadata lists nil / shorter / equal / longer than provider lists, looked-up context hitting or missing a set, looked-up metadata nil or bytes, optionally passed through a JSON round trip; served by a fake ProviderSource to a real ProviderCache; oracle: element-wise equality with a specification function written from the statement, any panic is a violation; context IDs that are valid text survive the JSON form unchanged; after a refresh that delivers a newer record without extended providers the expansion follows that record. Non-trivial: a contextual set matches and chain-level entries exist, or a list-length mismatch; distinct by case.",
+		Rule:        "provider records with 0..4 chain-level and 0..3 contextual sets (0..3 providers each, override on/off), per-entry metadata nil / empty / equal to the looked-up metadata / own, main provider present or absent in either list, metadata lists nil / shorter / equal / longer than provider lists, looked-up context hitting or missing a set, looked-up metadata nil or bytes, optionally passed through a JSON round trip; served by a fake ProviderSource to a real ProviderCache; oracle: element-wise equality with a specification function written from the statement, any panic is a violation; context IDs that are valid text survive the JSON form unchanged; after a refresh that delivers a newer record with changed contextual sets, and after one that delivers a record without extended providers, the expansion follows the record now current. Non-trivial: a contextual set matches and chain-level entries exist, or a list-length mismatch; distinct by case.",
 		Assumptions: []string{"contextual sets have distinct context IDs", "context ID strings that are not valid UTF-8 are re-read from the JSON round trip before the specification is applied"},
 	}, genRec, runRec)
 }
